@@ -3,6 +3,15 @@
 REFLECT = "Go reflect / runtime semantics as specified in the model (DESIGN.md 3.4)"
 
 PROPS = {
+    "C09": {
+        "gens": [],
+        "lean": "Anko.Props.C09",
+        "streams": [{"name": "errors", "n_quick": 2500, "n_thorough": 40000},
+                    {"name": "vm", "n_quick": 2000, "n_thorough": 40000}],
+        "trusted": ["the interpreter model lean/Anko/Model/Eval.lean mirrors vm/*.go on fragment F0 (validated differentially each run)",
+                    "reference evaluator of the errors stream (harness, independent of the model)"],
+        "assumptions": ["fragment F0", "`return` is not placed inside try blocks (finding #13 belongs to C08)"],
+    },
     "C08": {
         "gens": [],
         "lean": "Anko.Props.C08",
@@ -76,6 +85,19 @@ PROPS = {
 
 # Texts for MANIFEST.json (level_claimed.text, level_note, technique, design_ref)
 MANIFEST_TEXT = {
+    "C09": {
+        "text": "Machine-checked proofs (Lean 4) over the interpreter model: try/catch/finally sequencing (success skips catch and runs "
+                "finally; an ordinary error is cleared, bound to the catch variable and handled; a failing catch skips finally; the "
+                "interruption is never caught), an uncaught error aborts the statement list, defer captures function and arguments at the "
+                "defer statement, runDefers takes each registered call exactly once in LIFO order, keeps the invocation's result "
+                "(induction over the defer list) and lets a deferred error surface only if the body did not fail, every exit of an "
+                "invocation and of the top level goes through runDefers. Correspondence: thousands of try/throw/defer programs through "
+                "model and interpreter; oracle: independent reference evaluator predicting probe trace and final error.",
+        "note": "Trusted: Lean kernel; fidelity of the interpreter model (differential, 0 disagreements required); the harness reference "
+                "evaluator; fragment F0.",
+        "technique": "Lean 4 proof (unfolding lemmas + induction over the defer list) over an executable interpreter model + differential correspondence",
+        "design_ref": "DESIGN.md section 6 (C09)",
+    },
     "C08": {
         "text": "Machine-checked proofs (Lean 4) over the interpreter model: by induction on fuel, expressions (incl. calls) never yield a "
                 "break/continue/return sentinel, and each of the four loop forms consumes break/continue of its body whatever the body is "
